@@ -283,6 +283,13 @@ int __wrap_close(int fd) {
     sim_yield("close");
     sim_fd_note_close(fd);
     int r = __real_close(fd);
+    if (r == -1 && errno == EBADF) {
+        /* the program closed a descriptor that is not open: a double close (had the number been reused in
+         * the meantime, it would have closed somebody else's descriptor) */
+        int e = errno;
+        sim_hist("!badclose", "%d", fd);
+        errno = e;
+    }
     sim_bump_epoch();
     return r;
 }
